@@ -175,7 +175,7 @@ Definition mem (a : Z) (l : list Z) : bool := existsb (Z.eqb a) l.
 (* ------------------------------------------------------------------ mmapChunks *)
 Definition mmap1 (s : mser) : mser :=
   match s_hc s with
-  | newest :: (_ :: _ as older) => set_inorder (s_mm s ++ rev older) [newest] s
+  | newest :: ((_ :: _) as older) => set_inorder (s_mm s ++ rev older) [newest] s
   | _ => s
   end.
 
